@@ -1,6 +1,105 @@
-(* C29 — placeholder while the proofs are being written. *)
+(* C29 — ABI-driven dynamic encoding agrees with the native action codec.  Property theorems only.
+
+   Model: coq/Model/Abi.v (abi.NewABI / describeStruct = [describe]; dynamic.getReflectType = [reflect];
+   avalanchego linear codec = [enc]/[dec]; dynamic.Marshal / UnmarshalAction|Output = [dyn_marshal]/[dyn_unmarshal]).
+
+   Universe of the theorems ([sup]) = exactly what getReflectType supports: uint8..uint64, int8..int64, string,
+   codec.Address, slices, arrays, structs with tagged / untagged / non-serialized / embedded-struct fields.
+   NOT in it: bool and named scalar types (getReflectType has no case for them: Example C29_bool_unsupported
+   shows the model returning the error), pointers, maps, interfaces.  The registered types of the reference VM
+   (MorpheusVM Transfer, TransferResult) are in the universe.
+   Hypothesis [consistent t]: struct names identify struct types (NewABI and FindTypeByName key types by name).
+   JSON <-> value is Go's encoding/json: an oracle, not modelled.  Its role in the statements: the JSON document of a
+   value v of Go type t, read into the type rebuilt from the ABI, is [canon_val t v] (v with the values of untagged
+   embedded structs spliced into the parent, as encoding/json prints them); the driver checks this on every run.
+   The Go name cases.Title(json name) of a rebuilt field is not modelled (no influence on codec or JSON);
+   packer size limits are not modelled. *)
 From Coq Require Import List NArith ZArith Bool String.
+Import ListNotations.
 From HV Require Import Lib.Bytes Model.Abi Proofs.Abi_proofs.
-Theorem C29_placeholder_partial : forall fs, fapp fs FNil = fs.
-Proof. exact fapp_nil_r. Qed.
-Print Assumptions C29_placeholder_partial.
+
+(* The type getReflectType rebuilds from NewABI's description of a struct type t is t "up to field naming":
+   exactly [canon t] = t with embedded structs flattened into the parent, non-serialized fields dropped and every
+   field named by its effective JSON name and tagged serialize:"true" json:"<name>".  Any fuel above the nesting
+   depth (the Go recursion is unbounded). *)
+Theorem C29_describe_reflect : forall t,
+  is_struct t -> sup t = true -> consistent t ->
+  forall fuel, (height t < fuel)%nat -> reflect fuel (describe t) (tyname t) = Some (canon t).
+Proof. exact describe_reflect. Qed.
+Print Assumptions C29_describe_reflect.
+
+(* The same for any ABI (e.g. a VM registry with many actions and outputs) in which every struct reachable from t
+   is found under its name with its own description. *)
+Theorem C29_reflect_any_abi : forall t a fuel,
+  (height t < fuel)%nat -> sup t = true -> abi_has a (reach t) -> reflect fuel a (tyname t) = Some (canon t).
+Proof. intros t a fuel. apply (proj1 reflect_mut). Qed.
+Print Assumptions C29_reflect_any_abi.
+
+(* Same bytes: for every value v of t the linear codec gives the same result (bytes or rejection) through the
+   rebuilt type as through the native type. *)
+Theorem C29_bytes : forall t v, wt t v = true -> enc (canon t) (canon_val t v) = enc t v.
+Proof. exact canon_bytes. Qed.
+Print Assumptions C29_bytes.
+
+(* ... hence dynamic.Marshal (type id byte, then the codec on the rebuilt type) equals the type's own encoding *)
+Theorem C29_marshal_eq_native : forall t id outs v fuel,
+  is_struct t -> sup t = true -> consistent t -> (height t < fuel)%nat -> wt t v = true ->
+  dyn_marshal fuel (ABI [(id, tyname t)] outs (describe t)) (tyname t) (canon_val t v)
+  = option_map (cons id) (enc t v).
+Proof. exact dyn_marshal_native. Qed.
+Print Assumptions C29_marshal_eq_native.
+
+(* Round trip of the codec: decoding the encoding of a value returns the value and consumes exactly its bytes
+   (any continuation [rest] is left untouched). *)
+Theorem C29_dec_enc : forall t v bs rest,
+  wt t v = true -> enc t v = Some bs -> dec t (bs ++ rest) = Some (v, rest).
+Proof. exact dec_enc. Qed.
+Print Assumptions C29_dec_enc.
+
+(* ... hence dynamic.UnmarshalAction/Output on the native bytes hands encoding/json the value itself *)
+Theorem C29_unmarshal_native : forall t id acts outs v fuel bs rest,
+  is_struct t -> sup t = true -> consistent t -> (height t < fuel)%nat -> wt t v = true ->
+  enc t v = Some bs ->
+  dyn_unmarshal fuel (ABI acts outs (describe t)) [(id, tyname t)] (id :: bs ++ rest) = Some (canon_val t v).
+Proof. exact dyn_unmarshal_native. Qed.
+Print Assumptions C29_unmarshal_native.
+
+(* ---- non-vacuity *)
+Local Open Scope string_scope.
+Definition transfer : ty :=
+  TStruct "Transfer" (FCons (FI "To" (Some "to") true false) TAddress
+                     (FCons (FI "Value" (Some "value") true false) (TPrim U64)
+                     (FCons (FI "Memo" (Some "memo") true false) (TSlice (TPrim U8)) FNil))).
+Definition transfer_val : value :=
+  VList [VList (repeat (VNum 7) 33); VNum 18446744073709551615; VList [VNum 104; VNum 105]].
+
+Example C29_transfer_hyps : is_struct transfer /\ sup transfer = true /\ consistent transfer /\ wt transfer transfer_val = true.
+Proof.
+  split; [exists "Transfer"; eexists; reflexivity|]. split; [reflexivity|]. split; [|reflexivity].
+  intros n f1 f2 H1 H2. cbn in H1, H2. destruct H1 as [H1|[]]. destruct H2 as [H2|[]]. congruence.
+Qed.
+Example C29_transfer_encodes :
+  enc transfer transfer_val = Some (List.app (repeat 7%N 33) [255;255;255;255;255;255;255;255; 0;0;0;2; 104;105]%N).
+Proof. vm_compute. reflexivity. Qed.
+
+(* a struct with an embedded struct and a nested slice of structs: all hypotheses hold, the rebuilt type differs
+   from the native one (flattening) and the bytes agree *)
+Definition emb : ty := TStruct "Emb" (FCons (FI "E1" (Some "e1") true false) (TPrim U32) FNil).
+Definition inner : ty := TStruct "Inner" (FCons (FI "F" None true false) (TPrim I16) FNil).
+Definition outer : ty :=
+  TStruct "Outer" (FCons (FI "Emb" None true true) emb
+                  (FCons (FI "Skip" None false false) (TPrim PBool)
+                  (FCons (FI "L" (Some "l") true false) (TArray 2 (TSlice inner)) FNil))).
+Example C29_outer_hyps : is_struct outer /\ sup outer = true /\ consistent outer /\ canon outer <> outer.
+Proof.
+  split; [exists "Outer"; eexists; reflexivity|]. split; [reflexivity|]. split; [|discriminate].
+  intros n f1 f2 H1 H2. cbn in H1, H2.
+  destruct H1 as [H1|[H1|[]]]; destruct H2 as [H2|[H2|[]]]; congruence.
+Qed.
+Example C29_outer_reflect : reflect 5 (describe outer) "Outer" = Some (canon outer).
+Proof. vm_compute. reflexivity. Qed.
+
+(* bool is outside what getReflectType supports: the model of the code as it is returns the error *)
+Definition with_bool : ty := TStruct "Bools" (FCons (FI "Bool1" (Some "bool1") true false) (TPrim PBool) FNil).
+Example C29_bool_unsupported : forall fuel, reflect fuel (describe with_bool) "Bools" = None.
+Proof. intros [|[|f]]; reflexivity. Qed.
